@@ -46,7 +46,8 @@ struct FaultDecision {
   uint32_t dup_delay = 0;   // additional delay of each extra copy (relative to the previous copy)
 };
 
-enum EvKind { EV_SEND, EV_DELIVER, EV_DROP, EV_NOROUTE, EV_CALLBACK, EV_WAIT, EV_NOTE, EV_STREAM_TX, EV_STREAM_RX };
+enum EvKind { EV_SEND, EV_DELIVER, EV_DROP, EV_NOROUTE, EV_CALLBACK, EV_WAIT, EV_NOTE, EV_STREAM_TX, EV_STREAM_RX,
+              EV_READ /* libcoap takes a delivered datagram out of its socket (EV_DELIVER = it arrived there) */ };
 struct TraceEv {
   uint64_t t;
   EvKind kind;
